@@ -14,6 +14,11 @@ CHECKS = {
  "C03": ("proof", "contract-based deductive verification + lemmas over contracts (fixed point / strict form)",
          "Every lax validator has a full functional contract proved on the real source; convergence (lax(lax(v)) is lax(v)) and "
          "strict-form acceptance are lemmas discharged over the contracts for the exact domains (int, str, Decimal, list/tuple).", "DESIGN 3 C03"),
+ "C16": ("proof", "contract-based deductive verification: representation invariant of TypeRegistry preserved by every operation",
+         "The registry's list/cache are related to an abstract view (entries with priority and ghost registration stamp); "
+         "I1 priority order, I2 most-recent-first, I3 cache coherence, I4 stamps are established by __init__ and preserved by the register "
+         "decorator and by resolve (induction over every history of registrations and resolutions); resolve returns the first match, "
+         "proved to be the matching registration of highest priority with the latest stamp; detector closure = the documented criteria.", "DESIGN 3 C16"),
 }
 NA = {
  "C08": "oracle is CPython's own argument binding and the generator/async protocol; the VC generator has no semantics for yield/await (DESIGN 4)",
